@@ -9,6 +9,7 @@ CONSTANTS
   MaxOps = 1
   HasUpper = FALSE
   Known = {}
+  AsFound = {}
   UpperTypes = {"none"}
   LowerTypes = {"none", "file", "dir", "wh"}
 INVARIANTS LoadAgrees LiveIsView StatusAgrees RestartSame LowersFrozen
